@@ -436,6 +436,7 @@ pub fn run(ctx: &Ctx) {
             ExploreOpts { max_depth: depth, wall_cap: Duration::from_secs(ctx.tier.pick(400, 2400)), state_cap: ctx.tier.pick(200_000, 3_000_000), dedup: true },
         );
     }
+    super::modes::run(ctx);
     sweep_list(ctx, "router_learns_nothing", &[RouterCase { rounds: 3 }], SweepOpts { chunk: 1, ..Default::default() }, run_router);
     ctx.assume("switch timeout 10 s, peer timeout 5 s; every injection happens after the housekeeping sweep of its second, so 'fresh' is exact (no slack needed)");
     ctx.assume("nested tags: the inner tag is payload for the dissector (covered by C19), the outer tag decides the VLAN");
@@ -444,6 +445,7 @@ pub fn run(ctx: &Ctx) {
 pub fn replay(family: &str, case: &Value) -> Option<CaseResult> {
     match family {
         "tag_control" => replay_with::<TagCase>(case, run_tag),
+        "mode_matrix" => replay_with::<super::modes::ModeCase>(case, super::modes::run_case),
         "router_learns_nothing" => replay_with::<RouterCase>(case, run_router),
         f => {
             let (_, m, _) = variants(Tier::Thorough).into_iter().find(|(n, _, _)| n == f)?;
